@@ -136,12 +136,15 @@ Theorem C03_stable_run_gen : forall sc c1 L,
   inv c1 = Some L -> sorted_n L -> NoDup L ->
   (forall i, In i (apply_ids (plan_of sc c1)) -> In i L /\ fo c1 i <> None) ->
   (forall i, In i L -> ~ In i (map l_id (sc_local sc)) -> fo c1 i <> None) ->
+  (* dyn: a tracked id outside the manifest has a kind the RESTMapper knows (its CRD is live in c1);
+     otherwise the pruner skips it unread and the final inventory drops it *)
+  (forall i, In i L -> ~ In i (map l_id (sc_local sc)) -> kind_known sc (live_crds sc c1) i = true) ->
   (o_prune (sc_opts sc) = true -> pl_prune (plan_of sc c1) = []) ->
   fix_ok c1 (run sc c1) = true.
 Proof.
-  intros sc c1 L HO HND HI HS HN HA HX HP. destruct (fix_opts_split sc HO) as [O1 [O2 O3]].
+  intros sc c1 L HO HND HI HS HN HA HX HK HP. destruct (fix_opts_split sc HO) as [O1 [O2 O3]].
   apply (fix_ok_of_state sc c1 L (apply_ids (plan_of sc c1)) HI HS).
-  exact (stable_run_state sc c1 L O1 O2 O3 HS HN HND HI HA HX HP).
+  exact (stable_run_state sc c1 L O1 O2 O3 HS HN HND HI HA HX HK HP).
 Qed.
 
 Theorem C03_stable_run : forall sc c1 L,
@@ -151,11 +154,13 @@ Theorem C03_stable_run : forall sc c1 L,
   (forall i, In i L -> fo c1 i <> None) ->
   (forall i, In i (map l_id (sc_local sc)) -> In i L) ->
   (o_prune (sc_opts sc) = true -> forall i, In i L -> In i (map l_id (sc_local sc))) ->
+  (* dyn: see C03_stable_run_gen *)
+  (forall i, In i L -> ~ In i (map l_id (sc_local sc)) -> kind_known sc (live_crds sc c1) i = true) ->
   fix_ok c1 (run sc c1) = true.
 Proof.
-  intros sc c1 L HO HND HI HS HN HLive HL1 HL2. destruct (fix_opts_split sc HO) as [O1 [O2 O3]].
+  intros sc c1 L HO HND HI HS HN HLive HL1 HL2 HK. destruct (fix_opts_split sc HO) as [O1 [O2 O3]].
   apply (fix_ok_of_state sc c1 L (apply_ids (plan_of sc c1)) HI HS).
-  exact (stable_run_state_simple sc c1 L O1 O2 O3 HS HN HND HI HLive HL1 HL2).
+  exact (stable_run_state_simple sc c1 L O1 O2 O3 HS HN HND HI HLive HL1 HL2 HK).
 Qed.
 
 (* the general form with a boolean premise: decidable on every concrete (scenario, cluster) *)
@@ -168,7 +173,7 @@ Definition stableb (sc : scenario) (c1 : cluster) : bool :=
   | Some L =>
       nl_eqb (sortn L) L && nodupb L
       && forallb (fun i => memn i L && liveb c1 i) (apply_ids (plan_of sc c1))
-      && forallb (fun i => memn i (map l_id (sc_local sc)) || liveb c1 i) L
+      && forallb (fun i => memn i (map l_id (sc_local sc)) || (liveb c1 i && kind_known sc (live_crds sc c1) i)) L
       && (negb (o_prune (sc_opts sc)) || match pl_prune (plan_of sc c1) with [] => true | _ => false end)
   end.
 
@@ -189,7 +194,9 @@ Proof.
   - intros i Hi. rewrite forallb_forall in B3. specialize (B3 i Hi). apply andb_true_iff in B3.
     destruct B3 as [X Y]. split; [apply memn_In; exact X|apply liveb_fo; exact Y].
   - intros i Hi Hn. rewrite forallb_forall in B4. specialize (B4 i Hi). apply orb_true_iff in B4.
-    destruct B4 as [X|X]; [apply memn_In in X; contradiction|apply liveb_fo; exact X].
+    destruct B4 as [X|X]; [apply memn_In in X; contradiction|]. apply andb_true_iff in X. apply liveb_fo. apply X.
+  - intros i Hi Hn. rewrite forallb_forall in B4. specialize (B4 i Hi). apply orb_true_iff in B4.
+    destruct B4 as [X|X]; [apply memn_In in X; contradiction|]. apply andb_true_iff in X. apply X.
   - intros P. rewrite P in B5. cbn in B5. destruct (pl_prune (plan_of sc c1)); [reflexivity|discriminate].
 Qed.
 
@@ -205,7 +212,7 @@ Proof.
       try (exfalso; apply NOERR; left; reflexivity); apply HX; exact HV. }
   destruct (pl_invalid (plan_of sc c0)) as [|i t] eqn:E; [reflexivity|]. exfalso.
   assert (Hi : In i (pl_invalid (plan_of sc c0))) by (rewrite E; left; reflexivity).
-  rewrite plan_of_eq in Hi. destruct (invalid_named sc _ _ i Hi) as [e [He _]].
+  rewrite plan_of_eq in Hi. destruct (invalid_named sc _ _ _ i Hi) as [e [He _]].
   rewrite <- plan_of_eq, VE in He. destruct He.
 Qed.
 
@@ -221,12 +228,16 @@ Section WithMonitor.
     fix_opts sc2 = true ->
     map l_id (sc_local sc2) = map l_id (sc_local sc1) ->
     (o_prune (sc_opts sc2) = true -> o_prune (sc_opts sc1) = true) ->
+    (* dyn: both runs are about the same universe of objects (same kinds, same CRD of each custom resource) *)
+    sc_univ sc2 = sc_univ sc1 ->
     fix_ok (out_final (run sc1 c0)) (run sc2 (out_final (run sc1 c0))) = true.
   Proof.
-    intros sc1 sc2 c0 HWF HC HINV HNDI HO2 HIDS HPR.
+    intros sc1 sc2 c0 HWF HC HINV HNDI HO2 HIDS HPR HU.
     destruct (first_run_stable sc1 c0 HWF (monitor_C03_H sc1 c0 HWF) HC HINV HNDI)
-      as [L [HI [HS [HN [HLive [HL1 HL2]]]]]].
-    apply (C03_stable_run sc2 _ L HO2).
+      as [L [HI [HS [HN [HLive [HL1 [HL2 HK]]]]]]].
+    assert (KU : forall cl i, kind_known sc2 (live_crds sc2 cl) i = kind_known sc1 (live_crds sc1 cl) i).
+    { intros cl i. unfold kind_known, live_crds, is_crd_id, uinfo_of. rewrite HU. reflexivity. }
+    apply (C03_stable_run sc2 _ L HO2); [| | | | | | |rewrite HIDS; intros i Hi Hn; rewrite KU; exact (HK i Hi Hn)].
     - rewrite HIDS. apply (f_lids_nd sc1 c0 HWF HC).
     - exact HI.
     - exact HS.
@@ -272,10 +283,10 @@ Section WithMonitor.
   Qed.
 
   Theorem fixpoint_bool : forall sc1 sc2 c0,
-    WF sc1 c0 -> fix_hyps sc1 c0 = true -> fix_second sc1 sc2 = true ->
+    WF sc1 c0 -> fix_hyps sc1 c0 = true -> fix_second sc1 sc2 = true -> sc_univ sc2 = sc_univ sc1 ->
     fix_ok (out_final (run sc1 c0)) (run sc2 (out_final (run sc1 c0))) = true.
   Proof.
-    intros sc1 sc2 c0 HWF H1 H2. destruct (fix_hyps_sound _ _ H1) as [A [B C]].
+    intros sc1 sc2 c0 HWF H1 H2 HU. destruct (fix_hyps_sound _ _ H1) as [A [B C]].
     unfold fix_second in H2. apply andb_true_iff in H2. destruct H2 as [H2 P].
     apply andb_true_iff in H2. destruct H2 as [O E].
     apply fixpoint_two; try assumption.
@@ -304,10 +315,10 @@ Section WithMonitor.
      attributes l_baddep / l_finv of the manifests), so it is no premise here.  The premise on the invalid
      set stays: with identical manifests the SAME-scenario invalid case is exactly what is not proved. *)
   Theorem fixpoint_monitor : forall sc1 sc2 c0,
-    WF sc1 c0 -> pl_invalid (plan_of sc1 c0) = [] -> NoDup (prev_of c0) ->
+    WF sc1 c0 -> pl_invalid (plan_of sc1 c0) = [] -> NoDup (prev_of c0) -> sc_univ sc2 = sc_univ sc1 ->
     c03_fixpoint c0 [(sc1, run sc1 c0); (sc2, run sc2 (out_final (run sc1 c0)))] = true.
   Proof.
-    intros sc1 sc2 c0 HWF HINV HNDI. cbn [c03_fixpoint]. rewrite andb_true_r.
+    intros sc1 sc2 c0 HWF HINV HNDI HU. cbn [c03_fixpoint]. rewrite andb_true_r.
     match goal with |- negb ?g || _ = true => destruct g eqn:G end; [|reflexivity]. cbn [negb orb].
     apply andb_true_iff in G. destruct G as [G _]. apply andb_true_iff in G. destruct G as [S C1].
     apply andb_true_iff in S. destruct S as [S _].
@@ -407,6 +418,34 @@ Proof.
   split; [vm_compute; reflexivity|]. split; [constructor|]. split; [vm_compute; reflexivity|].
   split; [vm_compute; discriminate|]. split; [vm_compute; reflexivity|].
   split; [vm_compute; auto|]. split; vm_compute; reflexivity.
+Qed.
+
+(* ---- ... and one universe for both runs (dynamic type knowledge) ------------------------------------- *)
+(* The first scenario knows object 1 as a built-in kind, the second as a custom resource of CRD 2, which is
+   not in the cluster: in the second run the pruner skips the tracked object 1 unread (unknown type), the
+   retention table drops it and the inventory is rewritten as [0].  The executable check rejects this
+   history too; (sc2, final cluster of the first run) is not well-formed (WF clause 8). *)
+Definition fix_un_sc (u : list uinfo) :=
+  mkSc u None [mkL 0 [] false false false 1]
+       (mkO false false PMustMatch DNone VSkipInvalid false false false false PropBackground false)
+       (mkE [] [mkW [mkS 0 SCurrent true 0%N 2%Z] WCancel] CNever None).
+Definition fix_un_u1 := [mkU KPlain None None; mkU KPlain None None; mkU KCrd None None].
+Definition fix_un_u2 := [mkU KPlain None None; mkU KPlain None (Some 2); mkU KCrd None None].
+Definition fix_un_c0 :=
+  mkCl [mkC 0 10%N OOurs false [] false 1 (Some (mkLA OOurs false [] false 1)); mkC 1 11%N OOurs false [] false 1 None]
+       (Some [0; 1]) 20%N.
+
+Lemma fix_two_needs_same_universe : exists sc1 sc2 c0,
+  WF sc1 c0 /\ fix_hyps sc1 c0 = true /\ fix_second sc1 sc2 = true /\ sc_univ sc2 <> sc_univ sc1 /\
+  fix_ok (out_final (run sc1 c0)) (run sc2 (out_final (run sc1 c0))) = false /\
+  c03_fixpoint c0 [(sc1, run sc1 c0); (sc2, run sc2 (out_final (run sc1 c0)))] = false /\
+  wf_b sc2 (out_final (run sc1 c0)) = false /\
+  fix_ok (out_final (run sc1 c0)) (run sc1 (out_final (run sc1 c0))) = true.
+Proof.
+  exists (fix_un_sc fix_un_u1), (fix_un_sc fix_un_u2), fix_un_c0.
+  split; [apply wf_b_spec; vm_compute; reflexivity|].
+  split; [vm_compute; reflexivity|]. split; [vm_compute; reflexivity|]. split; [discriminate|].
+  split; [vm_compute; reflexivity|]. split; [vm_compute; reflexivity|]. split; vm_compute; reflexivity.
 Qed.
 
 (* ---- ... and a duplicate-free initial inventory, when the second scenario may rewrite the inventory -- *)
